@@ -61,7 +61,7 @@ for j in $(seq 1 "$JOBS"); do
     if grep -q "^VIOLATION" "$WORK/fuzz-$target-$j.log"; then
         viol=$((viol + 1))
         grep -A1 "^VIOLATION" "$WORK/fuzz-$target-$j.log" | head -4
-    elif ls "$WORK/fuzz-artifacts-$target-$j/" 2>/dev/null | grep -q .; then
+    elif ls "$WORK/fuzz-artifacts-$target-$j/" 2>/dev/null | grep -qE "^(crash|timeout|oom|leak)-"; then
         # a crash without our VIOLATION line: timeout / OOM / abort outside the oracle -> infrastructure
         echo "fuzz: $target job $j left an artifact without a VIOLATION line (timeout/oom?); see $WORK/fuzz-$target-$j.log" >&2
         rc=2
